@@ -41,6 +41,19 @@ Theorem C08_line : forall o inp ss st,
 Proof. intros o inp ss st Ho. exact (scan_line o inp ss st (in_driver_supported o Ho)). Qed.
 Print Assumptions C08_line.
 
+(** clause 1, termination half. Full statement wanted (DESIGN 4 C08, [C08_total]):
+      forall o inp, In o gen_scan_opts -> scan o inp <> OutOfFuel /\ scan o inp <> Panic
+    with fuel [fuel_of inp = 2*|inp|+8] (a *depth* bound: every loop iteration and every nested
+    BEGIN-block scanner gets its caller's fuel minus one; the progress lemma is "each iteration
+    consumes a byte or returns"). Proved here: the fuel is never exhausted. Missing for the full
+    statement: [scan o inp <> Panic] (every checked slice stays in bounds) — not proved yet; it is
+    covered by the tie only (Go panics are recovered and compared with the model's [Panic] on
+    every case, exhaustively for all strings of length <= 5 over the 12-symbol alphabet). *)
+Theorem C08_total_partial : forall o inp,
+  In o gen_scan_opts -> scan o inp <> OutOfFuel.
+Proof. intros o inp Ho. exact (scan_terminates o inp (in_driver_supported o Ho)). Qed.
+Print Assumptions C08_total_partial.
+
 (** the same three statements for *every* option set without GoCommand / MatchBeginTryCatch. *)
 Theorem C08_lossless_all_supported : forall o inp ss,
   supported o = true -> scan o inp = Ok ss ->
@@ -60,6 +73,14 @@ Proof.
   intros H. inversion H as [|x l H1 H2]; subst. vm_compute in H1. discriminate.
 Qed.
 Print Assumptions C08_positions_gocommand_refuted.
+
+(** the linear fuel is a depth bound, not a step count: on k unterminated BEGINs every BEGIN
+    re-scans the rest of the input in a nested scanner (2^k nested scans in the Go code too);
+    the model still terminates within [fuel_of]. *)
+Example C08_ex_total_nested_begins :
+  let inp := (concat (repeat ([66;69;71;73;78;32]%N) 6)) in   (* "BEGIN BEGIN BEGIN BEGIN BEGIN BEGIN " *)
+  scan opts_sqlite inp = Ok [mkStmt 0 (firstn 35 inp) []].
+Proof. vm_compute. reflexivity. Qed.
 
 (** ** non-vacuity *)
 (* "-- atlas:delimiter $$\n-- c\nSELECT 1$$\n/* x */ SELECT 2 $$" *)
